@@ -55,7 +55,14 @@ struct Graph {
     qtype: RecordType,
     /// a record of another type stored beside the CNAME at these alias indices
     beside: BTreeSet<usize>,
+    /// cache-held alias names that also carry a second, stale CNAME (the upstream re-pointed the alias
+    /// and both records are still alive in the cache)
+    stale: BTreeSet<usize>,
     has_cycle: bool,
+}
+
+fn stale_target(i: usize) -> DomainName {
+    dn(&format!("stale{i}.cached."))
 }
 
 fn mk_soa(apex: &str) -> SOA {
@@ -110,12 +117,19 @@ fn gen_graph(rng: &mut Rng) -> Graph {
             beside.insert(i);
         }
     }
+    let mut stale = BTreeSet::new();
+    for i in 0..len {
+        if names[i].1 == Src::Cache && rng.chance(1, 6) {
+            stale.insert(i);
+        }
+    }
     Graph {
         names,
         next,
         finals,
         qtype,
         beside,
+        stale,
         has_cycle,
     }
 }
@@ -159,7 +173,13 @@ fn build_world(g: &Graph) -> World {
     };
     for (i, (name, src)) in g.names.iter().enumerate() {
         if let Some(j) = g.next[i] {
+            if g.stale.contains(&i) && i % 2 == 0 {
+                put(name, *src, cname(&stale_target(i)));
+            }
             put(name, *src, cname(&g.names[j].0));
+            if g.stale.contains(&i) && i % 2 == 1 {
+                put(name, *src, cname(&stale_target(i)));
+            }
             if g.beside.contains(&i) {
                 put(name, *src, other_type_data(g.qtype));
             }
@@ -226,7 +246,7 @@ fn graph_json(g: &Graph) -> Value {
         "qtype": format!("{}", g.qtype),
         "links": g.names.iter().enumerate().map(|(i, (n, s))| format!("{} [{s:?}]{}{}", show_name(n),
             g.next[i].map(|j| format!(" CNAME -> {}", show_name(&g.names[j].0))).unwrap_or_else(|| format!(" final: {} record(s)", g.finals.len())),
-            if g.beside.contains(&i) { " (+ record of another type)" } else { "" })).collect::<Vec<_>>(),
+            if g.beside.contains(&i) { " (+ record of another type)" } else if g.stale.contains(&i) { " (+ a second, stale CNAME in the cache)" } else { "" })).collect::<Vec<_>>(),
         "cycle": g.has_cycle,
     })
 }
@@ -234,7 +254,8 @@ fn graph_json(g: &Graph) -> Value {
 #[allow(clippy::too_many_arguments)]
 fn check_answer(g: &Graph, mode: &Mode, round: usize, out: &Outcome, sh: &mut Shard, replay: &dyn Fn() -> Value) {
     let len = g.names.len() - 1;
-    let must_be_complete = !g.has_cycle && len <= 28 && reachable(g, mode);
+    // with a stale second CNAME in the cache either record may be followed, so completeness cannot be demanded
+    let must_be_complete = !g.has_cycle && len <= 28 && reachable(g, mode) && g.stale.is_empty();
     let rrs = match &out.result {
         Err(p) => {
             sh.violation(format!("C10:panic:{}", p.split_whitespace().take(5).collect::<Vec<_>>().join("_")), p.clone(), replay());
@@ -263,6 +284,7 @@ fn check_answer(g: &Graph, mode: &Mode, round: usize, out: &Outcome, sh: &mut Sh
     let mut owners = BTreeSet::new();
     let mut expect_owner = g.names[0].0.clone();
     let mut idx = 0usize;
+    let mut off_graph = false;
     for c in chain {
         if c.name != expect_owner {
             sh.violation(
@@ -282,12 +304,29 @@ fn check_answer(g: &Graph, mode: &Mode, round: usize, out: &Outcome, sh: &mut Sh
             RecordTypeWithData::CNAME { cname } => cname.clone(),
             _ => unreachable!(),
         };
+        if off_graph {
+            // after a stale alias nothing more is held: any further record is not from a source
+            sh.violation(format!("C10:cname-not-from-its-source:{}", mode.name()), format!("{} follows a stale alias whose target holds nothing", show_rr(c)), replay());
+            return;
+        }
+        if g.stale.contains(&idx) && got_target == stale_target(idx) {
+            // the cache holds two aliases for this name; the stale one was followed
+            off_graph = true;
+            expect_owner = got_target;
+            continue;
+        }
         if want_target.as_ref() != Some(&got_target) {
             sh.violation(format!("C10:cname-not-from-its-source:{}", mode.name()), format!("{} is not the record held for that name", show_rr(c)), replay());
             return;
         }
         idx = g.next[idx].unwrap();
         expect_owner = got_target;
+    }
+    if off_graph {
+        if let Some(d) = data.first() {
+            sh.violation(format!("C10:data-not-from-its-source:{}", mode.name()), format!("{} follows a stale alias whose target holds nothing", show_rr(d)), replay());
+        }
+        return;
     }
     for d in data {
         if matches!(d.rtype_with_data, RecordTypeWithData::CNAME { .. }) {
@@ -392,7 +431,7 @@ pub fn run(args: Args) {
     run.assume("T5: upstream servers send the records of one reply in chain order; each alias name lives in exactly one source");
     run.assume("in forwarding mode a chain is 'obtainable' only if, from the first upstream link on, all links are upstream (the forwarder cannot see local data)");
     let hub = TraceHub::new(&args, THREADS);
-    hub.start_hang_monitor(Duration::from_secs(120));
+    hub.start_hang_monitor(Duration::from_secs(30));
     let n = args.size(2_400_000, 60_000_000);
     let seed = args.seed;
     run.parallel(THREADS, STACK, |ti, sh| {
